@@ -2,7 +2,7 @@
 # confirm_demo.sh <seed_id> <worktree>: demo fails with patch.diff applied, passes without (run in the agent's worktree)
 id=$1; wt=$2; d=/verif/seeded/$id
 export GOFLAGS=-mod=mod GOPROXY=off GOSUMDB=off GOTOOLCHAIN=local
-cmd=$(python3 -c "import json;print(json.load(open('$d/meta.json')).get('demo_cmd',''))")
+cmd=$(python3 -c "import json,re;print(re.split(r'\s+\((demo file|demo files)',json.load(open('$d/meta.json')).get('demo_cmd',''))[0])")
 [ -z "$cmd" ] && { echo "$id: no demo_cmd"; exit 0; }
 # demo files back in place
 for f in $d/*_test.go; do [ -f "$f" ] || continue; n=$(basename $f); t=$(find $wt -name "$n" | head -1); [ -z "$t" ] && echo "  (demo file $n not found in worktree)"; done
